@@ -130,16 +130,18 @@ def function_history(ctx, prog, stats, directed=False):
             stats["evaluations"] += 1
             case = {"spec": prog["spec"], "mops": mops, "live": live, "calls": [call]}
             # outcomes carry fresh ids; compare through them
-            if got != m:
+            broken = got != m
+            if broken:
                 ctx.violation(f"after {desc[0]}: implementation {got} != model {m}", case, kind="correspondence")
-                return
             if got != exp:
-                if pushed_orphan:
+                if pushed_orphan and not (broken and m == exp):
                     ctx.known_hit("KF-05", case)
                     stats["kf05"] += 1
                 else:
                     ctx.violation(f"after {desc[0]}: long-lived function gives {got}, a function built from the resulting method set gives {exp}", case)
                     return
+            if broken:
+                return
     stats["function_histories"] += 1
 
 
